@@ -107,3 +107,32 @@ def fingerprint():
 def diff_fingerprint(a, b):
     reg = registry()
     return [reg[i][1] for i in a if i in b and a[i] != b[i]]
+
+
+_DEFAULTS = None
+
+
+def default_arg_ids():
+    """ids of mutable default-argument objects of tpmstream functions (shared across calls)"""
+    global _DEFAULTS
+    if _DEFAULTS is None:
+        registry()
+        ids = set()
+        for mname, m in list(sys.modules.items()):
+            if not mname.startswith("tpmstream") or m is None:
+                continue
+            for v in list(vars(m).values()):
+                fs = []
+                if isinstance(v, types.FunctionType):
+                    fs.append(v)
+                elif isinstance(v, type):
+                    for cv in vars(v).values():
+                        f = cv.__func__ if isinstance(cv, (classmethod, staticmethod)) else cv
+                        if isinstance(f, types.FunctionType):
+                            fs.append(f)
+                for f in fs:
+                    for d in (f.__defaults__ or ()) + tuple((f.__kwdefaults__ or {}).values()):
+                        if isinstance(d, (list, dict, set)) or (hasattr(d, "__dict__") and not isinstance(d, type) and not callable(d)):
+                            ids.add(id(d))
+        _DEFAULTS = ids
+    return _DEFAULTS
